@@ -136,6 +136,15 @@ CLAIMED = {
              "(b) generated units with up to 5000 (50000 thorough) identifiers, 200-deep scopes and shadowing between enumeration constants, typedefs, objects and tags: every use must denote the declaration the scope model selects; "
              "5000-label goto chains, 50000 macros and prefix-sharing string literals of every width resolve to their own entity.",
         note="(a) capacities 1 and 2 can fill completely (lookup of an absent key would not terminate); cproc only uses capacities >= 8, the harness skips and counts those lookups. (b) the scope model is the generator's own; IL executed through il2c."),
+    "C08": dict(
+        category="exploration", design_ref="DESIGN.md 3/C08",
+        engine="hypothesis",
+        technique="differential property-based testing of the calling convention: generated signatures with aggregate/variadic arguments, four-way mixed executables (cproc via il2c x gcc) compared with the gcc/gcc control; structural comparison of IL type descriptions with clang --target layouts on three targets",
+        text="Dynamic (x86_64): position-dependent argument patterns cross the boundary between cproc-compiled (IL rebuilt into C structs from the emitted type descriptions, executed via il2c) and gcc-compiled code in both "
+             "directions, every leaf and the returned aggregate must arrive intact. Structural (3 targets): size, alignment and per-eightbyte class sets of every IL aggregate type equal the C layout from clang offsetof tables; "
+             "parameter/return descriptors and the variadic marker position match the prototype.",
+        note="The host C ABI classifies the rebuilt structs as QBE would from the same description (trusted); aarch64/riscv64 get only the structural half; aggregates with bit-fields trip a recorded finding (emittype) whose three signatures are suppressed; "
+             "packed/_Alignas-member aggregates by value (C01 findings) are not generated."),
 }
 
 NOT_YET = "check not built yet in this round (planned per DESIGN.md section 10); no claim is made"
